@@ -30,6 +30,7 @@ pub enum Step {
     CallAddr(Addr<Probe<0>>, Uid),
     /// C05.R4 / C15: look at the context's own weak handles (must never keep the actor alive)
     WeakSelf,
+    TryFromRegistry(u8),
 }
 
 impl Step {
@@ -51,6 +52,7 @@ impl Step {
             Step::Panic => "panic",
             Step::CallAddr(..) => "call_addr",
             Step::WeakSelf => "weak_self",
+            Step::TryFromRegistry(_) => "try_from_registry",
         }
     }
 }
@@ -469,6 +471,15 @@ impl<const KK: usize> Probe<KK> {
                     let ok = matches!(&r, Ok(rep) if rep.msg == uid);
                     log::log(K::Effect { msg, actor, step: i, what: name, arg: uid, ok });
                 }
+                Step::TryFromRegistry(k) => {
+                    use hannibal::Service as _;
+                    // (what it returns depends on who holds the registry lock at this instant: not an oracle input)
+                    let some = match k {
+                        1 => Probe::<1>::try_from_registry().is_some(),
+                        _ => Probe::<2>::try_from_registry().is_some(),
+                    };
+                    log::log(K::Effect { msg, actor, step: i, what: name, arg: k as u64, ok: some });
+                }
                 Step::WeakSelf => {
                     let wa = ctx.weak_address();
                     let ws = ctx.weak_sender::<Fire>();
@@ -492,14 +503,17 @@ impl<const KK: usize> Actor for Probe<KK> {
         self.actor = actor;
         if self.tag == u32::MAX {
             // default-created value: belongs to the actor whose task runs it
-            self.tag = with_g(|g| g.task_tag.get(&actor).copied()).unwrap_or(self.spec.tag);
+            // (where tasks have no identity - the cross-runtime engine - it keeps the tag of the default spec)
+            self.tag = if actor == u32::MAX { self.spec.tag } else { with_g(|g| g.task_tag.get(&actor).copied()).unwrap_or(self.spec.tag) };
             if let Some(spec) = with_g(|g| g.specs.get(&self.tag).cloned()) {
                 self.spec = spec;
             }
         }
-        with_g(|g| {
-            g.task_tag.insert(actor, self.tag);
-        });
+        if actor != u32::MAX {
+            with_g(|g| {
+                g.task_tag.insert(actor, self.tag);
+            });
+        }
         let nth = with_g(|g| {
             let c = g.started_count.entry(self.tag).or_insert(0);
             let n = *c;
